@@ -29,6 +29,21 @@ Oracles
      can see) the low/high-pass envelope is a function of the filter hyper-parameters only: in Fourier space
      F[R_k,filtered] * F[R_p,unfiltered] = F[R_k,unfiltered] * F[R_p,filtered] for every kernel k against the
      reference kernel p = parallax without flipping. No filter formula is assumed.
+ (7) spellings of mask-like / index-like arguments: one sub-mask handed to reconstruct(bf_mask=...) as torch
+     bool/uint8/int16/int32/int64/float32/float64 tensors, NumPy bool/uint8/int64/float64 arrays, nested lists/tuples,
+     transposed / strided / Fortran-ordered views and as the complement written by arithmetic (full.int() - other.int());
+     max_batch_size / upsampling_factor as NumPy / torch / float scalars; the construction mask in other dtypes. Every
+     spelling the library accepts must equal the canonical torch.bool / int spelling for every kernel, recombine with its
+     complement (single-pass kernels) and satisfy the parallax closed form; rejected spellings are counted per spelling;
+ (8) aberration spelling x source precedence: for every coefficient that has an alias (defocus/C10, astigmatism/C12,
+     astigmatism_angle/phi12, coma/C21, coma_angle/phi21, Cs/C30, C5/C50 - read from the library's alias table), every
+     combination of constructor {none, canonical, alias} x optimized state {none, or set through the public
+     grid_search_hyperparameters (single grid point / fixed value) and optimize_hyperparameters (low == high), canonical /
+     alias} x override at reconstruct {none, canonical, alias, canonical 0.0, alias 0.0} must give the result of the
+     equivalent all-canonical object (override > optimized > initial regardless of spelling), judged differentially and,
+     for parallax without flipping with defocus/astigmatism, by the closed form (4); both spellings in ONE dictionary with
+     equal values == canonical alone; with conflicting values the entry listed last wins (the order of the current tree,
+     reported under its own class).
 """
 from __future__ import annotations
 
@@ -44,7 +59,8 @@ from mc.harness import Broken, Tally
 LEVEL = "exploration"
 TECHNIQUE = (
     "exhaustive configuration lattice (scan shape x mask x sub-mask x aberrations x rotation x kernel+aliases x upsampling x filter) "
-    "with the complete schedule dimension (every max_batch_size 1..num_bf and None) at every point; full delta basis of the stack for linearity"
+    "with the complete schedule dimension (every max_batch_size 1..num_bf and None) at every point; full delta basis of the stack for linearity; "
+    "complete spelling families for mask / index arguments and for aberration names x sources (constructor, optimized state, override)"
 )
 CLAIM = (
     "For every point of the stated lattice and every batch size 1..num_bf the reconstruction equals the one-batch result (within 3e-5 of its maximum, float32), "
@@ -52,19 +68,26 @@ CLAIM = (
     "for the 5x5 scan, seeded pairs elsewhere), single-pass kernels recombine over three partitions of the mask weighted by the aperture weight "
     "(two-pass kernels are kept as a control that must violate it), parallax without sign flipping equals the independently translated, "
     "mean-subtracted sum divided by the aperture weight, and results are bit-identical between fresh objects and after arbitrary intervening "
-    "reconstructions. Exhaustive lattice + complete schedule enumeration is the right level: the defects live in batch remainders, sub-mask "
+    "reconstructions; every accepted spelling of a sub-mask (23 tensor / array / list / view / complement-by-arithmetic forms), of the batch "
+    "size and upsampling factor and of the construction mask gives the result of the canonical spelling, and every combination of "
+    "aberration spelling (canonical / alias) and source (constructor, optimized state, reconstruct override) gives the result of the "
+    "equivalent all-canonical object. Exhaustive lattice + complete schedule enumeration is the right level: the defects live in batch remainders, sub-mask "
     "index mapping and two-pass normalisation, all finite dimensions; linearity closes the data quantifier for the smallest shape."
 )
 NOTE = (
     "Trusted: the stack order convention (image i belongs to the i-th True pixel of the mask in row-major order), the library's own "
     "evaluate_probe for the aperture weight W (own closed-form soft aperture is compared and reported), float32 tolerances relative to the "
     "output maximum. Stack contents are seeded (dyadic values so that 2x-3y is exact in float32). Scan shapes beyond 8x6, masks beyond 21 "
-    "pixels, aberration values off the alphabet and soft_edges=False are not explored. Oracle (6) goes beyond the literal statement."
+    "pixels, aberration values off the alphabet and soft_edges=False are not explored. Oracle (6) goes beyond the literal statement. "
+    "Spelling families: 0/1-valued masks only; the optimized state is reached through the public searches with a single candidate value; "
+    "'defocus' = -C10 is the one alias with a sign; conflicting spellings in one dictionary are judged by the order the current tree defines (listed last wins)."
 )
 RULE = (
     "Cartesian product of the alphabets in coverage.alphabet; inside each point every max_batch_size 1..num_bf(sub-mask) and None. An "
     "evaluation = one comparison of a reconstruction with its oracle. Non-trivial = the reference reconstruction is not identically zero and, "
-    "for batch cases, the batch size actually splits the set (b < num_bf); distinct = distinct (relation, point, batch size) descriptors."
+    "for batch cases, the batch size actually splits the set (b < num_bf); distinct = distinct (relation, point, batch size) descriptors. "
+    "Spelling families: Cartesian product target mask x spelling x batch size x kernel (masks) and coefficient x constructor x optimized x override "
+    "x kernel (aberrations); a rejected spelling is counted per spelling and is trivial."
 )
 
 # ----------------------------------------------------------------------------- alphabets
@@ -291,8 +314,8 @@ def recon(dp, kv, up, filt, arr, b, alias=None, **extra):
         try:
             dp.reconstruct(**kw)
         except Exception as ex:
-            shown = {k: (v if not hasattr(v, "shape") else f"<mask {int(v.sum())} px>") for k, v in kw.items()}
-            raise ReconError(f"reconstruct({shown}) raised {type(ex).__name__}: {ex}") from ex
+            shown = {k: (v if k != "bf_mask" else f"<{type(v).__name__} {getattr(v, 'dtype', '')}>") for k, v in kw.items()}
+            raise ReconError(f"reconstruct({shown}) raised {type(ex).__name__}: {str(ex)[:300]}") from ex
     return dp.corrected_stack.detach().cpu().numpy().copy()
 
 
@@ -614,6 +637,417 @@ def w_basis(item, seed=0, filters=("none",)):
     return t
 
 
+# ----------------------------------------------------------------------------- (7) spellings of mask-like / index-like arguments
+# One sub-mask, many ways to hand it over. Every spelling the library accepts must give the result of the canonical
+# torch.bool tensor (and therefore satisfy the same oracles); a spelling the library rejects (raises) is counted per
+# spelling, never a failure. The second element says whether the spelling is built from the complement by arithmetic.
+MASK_SPELLINGS = [
+    "t_uint8", "t_int16", "t_int32", "t_int64", "t_float32", "t_float64",
+    "np_bool", "np_uint8", "np_int64", "np_float64",
+    "list_bool", "list_int", "tuple_int",
+    "t_bool_transposed_view", "t_int64_transposed_view", "t_bool_strided_view", "t_int32_strided_view",
+    "np_bool_fortran", "np_int64_strided_view",
+    "compl_t_int32", "compl_t_int64", "compl_t_float32", "compl_np_int64",
+]  # fmt: skip
+SPELL_TARGETS = {"cb1": "cb0", "rest": "one", "not_q0": "q0", "one": None, "full": None}  # target -> the named sub-mask it complements
+INDEX_SPELLINGS = {
+    "max_batch_size": ["np_int64", "np_int32", "t_int64", "float", "np_float64"],
+    "upsampling_factor": ["np_int64", "t_int64", "float", "np_float32"],
+}
+TOL_SPELL = 3e-5  # accepted spellings are bit-identical on the current tree (observed 0); seeded defect (integer gather indexing): 0.8-1.0
+
+
+def spell_mask(name, arr, full):
+    """The boolean sub-mask `arr` (NumPy, corner-centred) written as `name`; `full` is the construction mask."""
+    torch = _lib()[0]
+    tb = torch.as_tensor(arr.copy())
+    tf = torch.as_tensor(full.copy())
+    other = tf & ~tb  # complement of the target inside the construction mask
+    big = np.zeros((2 * arr.shape[0], 2 * arr.shape[1]), dtype=bool)
+    big[::2, ::2] = arr
+    if name == "t_bool":
+        return tb
+    if name in ("t_uint8", "t_int16", "t_int32", "t_int64", "t_float32", "t_float64"):
+        return tb.to(getattr(torch, name[2:]))
+    if name in ("np_bool", "np_uint8", "np_int64", "np_float64"):
+        return arr.astype(getattr(np, name[3:] if name != "np_bool" else "bool_"))
+    if name == "list_bool":
+        return arr.tolist()
+    if name == "list_int":
+        return arr.astype(int).tolist()
+    if name == "tuple_int":
+        return tuple(tuple(int(v) for v in row) for row in arr)
+    if name == "t_bool_transposed_view":
+        return torch.as_tensor(arr.T.copy()).T
+    if name == "t_int64_transposed_view":
+        return torch.as_tensor(arr.T.copy()).long().T
+    if name == "t_bool_strided_view":
+        return torch.as_tensor(big.copy())[::2, ::2]
+    if name == "t_int32_strided_view":
+        return torch.as_tensor(big.copy()).int()[::2, ::2]
+    if name == "np_bool_fortran":
+        return np.asfortranarray(arr)
+    if name == "np_int64_strided_view":
+        return big.astype(np.int64)[::2, ::2]
+    if name == "compl_t_int32":
+        return tf.int() - other.int()
+    if name == "compl_t_int64":
+        return tf.long() - other.long()
+    if name == "compl_t_float32":
+        return tf.float() - other.float()
+    if name == "compl_np_int64":
+        return full.astype(np.int64) - other.numpy().astype(np.int64)
+    raise ValueError(name)
+
+
+def _as_bool_array(obj):
+    torch = _lib()[0]
+    if isinstance(obj, torch.Tensor):
+        return obj.detach().cpu().numpy().astype(bool)
+    return np.asarray(obj).astype(bool)
+
+
+def target_array(env, target):
+    if target == "not_q0":
+        return env.arrays["full"] & ~env.arrays["q0"]
+    return env.arrays[target]
+
+
+def spelling_point(t, env, kv, up, target, spelling, b, cache=None):
+    """One (target mask, spelling, batch size): differential against the canonical bool tensor + the existing oracles."""
+    cache = {} if cache is None else cache
+    arr = target_array(env, target)
+    full = env.arrays["full"]
+    pt = env.point(kv, up, "none", target, spelling=spelling, batch=b)
+    case = dict(pt, kind="mask_spelling")
+    if ("ref", target, b) not in cache:
+        cache[("ref", target, b)] = recon(env.A, kv, up, "none", None, b, bf_mask=spell_mask("t_bool", arr, full))
+    ref = cache[("ref", target, b)]
+    obj = spell_mask(spelling, arr, full)
+    if not np.array_equal(_as_bool_array(obj), arr):
+        raise Broken(f"mask spelling {spelling} does not describe the target mask {target}")
+    try:
+        got = recon(env.A, kv, up, "none", None, b, bf_mask=obj)
+    except ReconError as ex:
+        t.extra["mask_spelling_rejected__" + spelling] += 1
+        t.case(key=["mask_spelling_rejected", pt], nontrivial=False)
+        t.sample({"rejected_mask_spelling": spelling, "exception": f"{type(ex.__cause__).__name__}: {ex.__cause__}"[:160]}, cap=1)
+        return
+    t.extra["mask_spelling_accepted__" + spelling] += 1
+    nz = bool(np.any(ref != 0))
+    cls = {"spelling": spelling, **kclass(kv)}
+    e = relerr(got, ref)
+    t.case(key=["mask_spelling", pt], nontrivial=nz, outcome=[round(float(np.abs(ref).max()), 7)])
+    t.stat("mask_spelling_rel_err", e)
+    if not e <= TOL_SPELL:
+        t.fail({"relation": "mask_spelling_equals_bool_tensor", **cls}, case, f"bf_mask given as {spelling} ({type(obj).__name__}, {getattr(obj, 'dtype', 'nested')}) differs from the same mask as a torch.bool tensor by {e:.3e} of max (tol {TOL_SPELL}); num_bf={int(arr.sum())} at {pt}")
+    if not np.array_equal(_as_bool_array(obj), arr):
+        t.fail({"relation": "mask_argument_not_mutated", **cls}, case, f"reconstruct modified the bf_mask object it was given ({spelling}) at {pt}")
+    # the existing oracles, applied to the spelled call itself
+    comp = SPELL_TARGETS[target]
+    if comp is not None and kv[0] in SINGLE_PASS and got.shape == ref.shape and np.all(np.isfinite(got)):
+        Wc = env.W[comp]
+        Wt = float(env.wmap[arr].sum())
+        if ("bf", comp, b) not in cache:
+            cache[("bf", comp, b)] = recon(env.A, kv, up, "none", env.arrays[comp], b).astype(np.float64).sum(0)
+        if ("bf", "full", b) not in cache:
+            cache[("bf", "full", b)] = recon(env.A, kv, up, "none", None, b).astype(np.float64).sum(0)
+        ra, rf = cache[("bf", comp, b)], cache[("bf", "full", b)]
+        e2 = relerr(Wc * ra + Wt * got.astype(np.float64).sum(0), env.W["full"] * rf)
+        t.case(key=["mask_spelling_recombination", pt], nontrivial=bool(np.any(rf != 0)))
+        t.stat("mask_spelling_recombination_rel_err", e2)
+        if not e2 <= TOL_RECOMB:
+            t.fail({"relation": "submask_recombination_spelled_complement", **cls}, case, f"W*R of {comp} + W*R of its complement given as {spelling} differs from W_full*R_full by {e2:.3e} of max (tol {TOL_RECOMB}); W={Wc:.6f}+{Wt:.6f} at {pt}")
+    if tuple(kv) == ("prlx", False) and env.abername in ANALYTIC_ABERS and got.shape == ref.shape:
+        idx = [i for i, (a_, b_) in enumerate(env.pix) if arr[a_ % env.g[0], b_ % env.g[1]]]
+        want = parallax_oracle(env.x[idx], geometric_shifts([env.pix[i] for i in idx], env.abers, env.rot), float(env.wmap[arr].sum()), up)
+        e3 = relerr(got, want)
+        t.case(key=["mask_spelling_analytic", pt], nontrivial=True)
+        t.stat("mask_spelling_analytic_rel_err", e3)
+        if not e3 <= TOL_ANALYTIC:
+            t.fail({"relation": "parallax_analytic_spelled_mask", "spelling": spelling}, case, f"parallax closed form with bf_mask given as {spelling}: differs by {e3:.3e} of max (tol {TOL_ANALYTIC}) at {pt}")
+
+
+def _index_value(how, v):
+    torch = _lib()[0]
+    return {"np_int64": np.int64(v), "np_int32": np.int32(v), "t_int64": torch.tensor(int(v)), "float": float(v), "np_float64": np.float64(v), "np_float32": np.float32(v)}[how]
+
+
+def index_spelling_point(t, env, kv, up, arg, how):
+    pt = env.point(kv, up, "none", "full", argument=arg, spelling=how)
+    case = dict(pt, kind="index_spelling")
+    plain = {"max_batch_size": 2, "upsampling_factor": up}
+    ref = recon(env.A, kv, up, "none", None, 2)
+    try:
+        got = recon(env.A, kv, up, "none", None, 2, **{arg: _index_value(how, plain[arg])})
+    except ReconError:
+        t.extra[f"index_spelling_rejected__{arg}__{how}"] += 1
+        t.case(key=["index_spelling_rejected", pt], nontrivial=False)
+        return
+    t.extra[f"index_spelling_accepted__{arg}__{how}"] += 1
+    e = relerr(got, ref)
+    t.case(key=["index_spelling", pt], nontrivial=bool(np.any(ref != 0)))
+    t.stat("index_spelling_rel_err", e)
+    if not e <= TOL_SPELL:
+        t.fail({"relation": "index_spelling_equals_int", "argument": arg, "spelling": how, **kclass(kv)}, case, f"{arg}={_index_value(how, plain[arg])!r} ({how}) differs from the plain int {plain[arg]} by {e:.3e} of max at {pt}")
+
+
+CTOR_MASK_SPELLINGS = ["np_uint8", "np_int64", "np_float64", "np_float32", "np_bool_fortran"]
+
+
+def ctor_mask_point(t, env, kv, up, how):
+    """The construction mask (Dataset2d) in another dtype / memory layout == the boolean construction mask."""
+    torch, Dataset2d, Dataset3d, DP = _lib()
+    pt = env.point(kv, up, "none", "cb1", constructor_mask=how)
+    case = dict(pt, kind="ctor_mask_spelling")
+    m = np.asfortranarray(env.m8) if how == "np_bool_fortran" else env.m8.astype(getattr(np, how[3:]))
+    try:
+        with warnings.catch_warnings():
+            warnings.simplefilter("ignore")
+            vd = Dataset3d.from_array(env.x.copy(), units=("index", "A", "A"), sampling=(1,) + SCAN_SAMPLING)
+            md = Dataset2d.from_array(m, units=("mrad", "mrad"), sampling=(DK_MRAD, DK_MRAD))
+            dp = DP.from_virtual_bfs(vd, md, energy=ENERGY, rotation_angle=env.rot, aberration_coefs=dict(env.abers), semiangle_cutoff=MASKS[env.maskname], verbose=0, crop_bf_mask=True, rng=int(env.seed) % (2**31))
+    except Exception:
+        t.extra["ctor_mask_spelling_rejected__" + how] += 1
+        t.case(key=["ctor_mask_rejected", pt], nontrivial=False)
+        return
+    t.extra["ctor_mask_spelling_accepted__" + how] += 1
+    for sub in ("full", "cb1"):
+        arr = None if sub == "full" else env.arrays[sub]
+        ref = recon(env.A, kv, up, "none", arr, 2)
+        got = recon(dp, kv, up, "none", arr, 2)
+        e = relerr(got, ref)
+        t.case(key=["ctor_mask_spelling", pt, sub], nontrivial=bool(np.any(ref != 0)))
+        t.stat("ctor_mask_spelling_rel_err", e)
+        if not e <= TOL_SPELL:
+            t.fail({"relation": "constructor_mask_spelling_equals_bool", "spelling": how, **kclass(kv)}, dict(case, sub=sub), f"construction mask given as {how} differs from the boolean construction mask by {e:.3e} of max (sub-mask {sub}) at {pt}")
+
+
+def w_mask_spell(item, seed=0):
+    shape, maskname, abername, rot, kvi, up = item
+    t = Tally()
+    env = Env(shape, maskname, abername, rot, seed)
+    kv = KVARIANTS[kvi]
+    cache = {}
+    try:
+        for target in SPELL_TARGETS:
+            for spelling in MASK_SPELLINGS:
+                for b in (None, 2):
+                    spelling_point(t, env, kv, up, target, spelling, b, cache)
+        for arg, hows in INDEX_SPELLINGS.items():
+            for how in hows:
+                index_spelling_point(t, env, kv, up, arg, how)
+        for how in CTOR_MASK_SPELLINGS:
+            ctor_mask_point(t, env, kv, up, how)
+    except ReconError as ex:  # the canonical spelling itself raised
+        pt = env.point(kv, up, "none")
+        t.fail({"relation": "reconstruct_raised", "exception": type(ex.__cause__).__name__, **kclass(kv)}, dict(pt, kind="setting"), f"{ex} at {pt}")
+    t.extra["mask_spelling_items"] += 1
+    return t
+
+
+# ----------------------------------------------------------------------------- (8) aberration spelling x source precedence
+# Every coefficient that has an alias name, given in the constructor (none / canonical / alias), in the optimized state
+# (none / through the public searches, canonical / alias) and as a reconstruct override (none / canonical / alias, also
+# override to 0.0), must give the result of the equivalent all-canonical object: override > optimized > initial,
+# regardless of spelling.
+KNOWN_ABER_ALIASES = {"defocus": "C10", "astigmatism": "C12", "astigmatism_angle": "phi12", "coma": "C21", "coma_angle": "phi21", "Cs": "C30", "C5": "C50"}
+# per canonical coefficient: (value in the constructor, value in the optimized state, value of the override)
+ABER_VALUES = {
+    "C10": (-120.0, 60.0, -45.0), "C12": (25.0, 40.0, 12.0), "phi12": (0.4, -0.3, 0.9), "C21": (3000.0, -2000.0, 1500.0),
+    "phi21": (-0.7, 0.5, 1.1), "C30": (2.0e5, -1.0e5, 3.0e5), "C50": (1.0e9, -5.0e8, 2.0e9),
+}  # fmt: skip
+LOW_CONTEXT = {"C10": -120.0, "C12": 25.0, "phi12": 0.4}  # closed form (4) applies
+HIGH_CONTEXT = {"C10": -120.0, "C12": 25.0, "phi12": 0.4, "C21": 3000.0, "phi21": -0.7, "C30": 2.0e5, "C50": 1.0e9}
+CTOR_KINDS = ["none", "canonical", "alias"]
+OPT_KINDS = ["none", "grid_canonical", "grid_alias", "fixed_canonical", "fixed_alias", "optuna_canonical", "optuna_alias"]
+OVER_KINDS = ["none", "canonical", "alias", "canonical_zero", "alias_zero"]
+ONE_DICT_KINDS = ["equal_canonical_first", "equal_alias_first", "conflict_canonical_first", "conflict_alias_first"]
+_PAIR_CACHE = {}
+
+
+def aber_pairs():
+    """[(alias, canonical, sign)] from the library's alias table (complex_probe.POLAR_ALIASES), else the known table.
+    'defocus' is the one alias with the opposite sign (defocus = -C10, documented)."""
+    if "p" not in _PAIR_CACHE:
+        table, src = dict(KNOWN_ABER_ALIASES), "known table"
+        try:
+            import quantem.diffractive_imaging.complex_probe as CP
+
+            lib = dict(getattr(CP, "POLAR_ALIASES"))
+            if lib:
+                table, src = lib, "complex_probe.POLAR_ALIASES"
+        except Exception:
+            pass
+        pairs = [(a, c, -1.0 if a == "defocus" else 1.0) for a, c in table.items() if c in ABER_VALUES]
+        _PAIR_CACHE["p"] = (pairs, src, sorted(a for a, c in table.items() if c not in ABER_VALUES))
+    return _PAIR_CACHE["p"]
+
+
+def spelled(pair, value, how):
+    alias, canon, sign = pair
+    return {canon: float(value)} if "canonical" in how else {alias: sign * float(value)}
+
+
+def context_for(pair):
+    ctx_ = LOW_CONTEXT if pair[1] in LOW_CONTEXT else HIGH_CONTEXT
+    return {k: v for k, v in ctx_.items() if k != pair[1]}
+
+
+class AberBase:
+    """(scan shape, construction mask, rotation): the stack and the weight map for the precedence family."""
+
+    def __init__(self, shape, maskname, rot, seed):
+        self.env = Env(shape, maskname, "none", rot, seed)
+        self.refs = {}
+
+    def reference(self, kv, up, b, eff):
+        """All-canonical equivalent: a fresh object built with the effective canonical dictionary, no override."""
+        key = (tuple(kv), up, b, tuple(sorted(eff.items())))
+        if key not in self.refs:
+            e = self.env
+            self.refs[key] = recon(build(e.x, e.maskname, eff, e.rot, e.seed), kv, up, "none", None, b)
+        return self.refs[key]
+
+
+def _search(dp, how, spec, kw):
+    """Put a value into the optimized state through a public search; deterministic (one grid point / low == high)."""
+    from quantem.diffractive_imaging.direct_ptychography import OptimizationParameter
+
+    (name, val), = spec.items()
+    with warnings.catch_warnings():
+        warnings.simplefilter("ignore")
+        if how.startswith("grid"):
+            dp.grid_search_hyperparameters(aberration_coefs={name: OptimizationParameter(val, val, n_points=1)}, verbose=False, **kw)
+        elif how.startswith("fixed"):
+            dp.grid_search_hyperparameters(aberration_coefs={name: val}, verbose=False, **kw)
+        else:
+            dp.optimize_hyperparameters(aberration_coefs={name: OptimizationParameter(val, val)}, n_trials=1, verbose=False, **kw)
+
+
+def _recon_kwargs(kv, up, b):
+    kw = dict(deconvolution_kernel=kv[0], upsampling_factor=up, max_batch_size=b)
+    if kv[1] is not None:
+        kw["parallax_flip_phase"] = kv[1]
+    return kw
+
+
+def _judge_aber(t, base, kv, up, b, pair, eff_value, got, cls, case, what):
+    """Differential against the all-canonical object and, where it applies, the closed form (4)."""
+    env = base.env
+    ctx_ = context_for(pair)
+    eff = dict(ctx_)
+    if eff_value is not None:
+        eff[pair[1]] = float(eff_value)
+    ref = base.reference(kv, up, b, eff)
+    e = relerr(got, ref)
+    nz = bool(np.any(ref != 0))
+    t.case(key=["aber_spelling", case], nontrivial=nz, outcome=[round(float(np.abs(ref).max()), 7)])
+    t.stat("aberration_spelling_rel_err", e)
+    ok = e <= TOL_OVERRIDE
+    msg = ""
+    if not ok:
+        # which value did the library use? compare with the all-canonical result for every candidate value
+        cands = {"absent": None, "zero": 0.0, "constructor value": ABER_VALUES[pair[1]][0], "optimized value": ABER_VALUES[pair[1]][1], "override value": ABER_VALUES[pair[1]][2]}
+        used = []
+        for nm, v in cands.items():
+            d = dict(ctx_)
+            if v is not None:
+                d[pair[1]] = v
+            if relerr(got, base.reference(kv, up, b, d)) <= TOL_OVERRIDE:
+                used.append(f"{nm} ({pair[1]}={v})")
+        msg = f"{what}: result differs from the all-canonical object with {pair[1]}={eff_value} by {e:.3e} of max (tol {TOL_OVERRIDE})" + (f"; it equals the result for the {' / '.join(used)}" if used else "") + f" at {case}"
+        t.fail(dict(cls, judge="differential"), case, msg)
+    if tuple(kv) == ("prlx", False) and not (set(eff) - set(LOW_CONTEXT)):
+        want = parallax_oracle(env.x, geometric_shifts(env.pix, eff, env.rot), env.W["full"], up)
+        e2 = relerr(got, want)
+        t.case(key=["aber_spelling_analytic", case], nontrivial=True)
+        t.stat("aberration_spelling_analytic_rel_err", e2)
+        t.extra["aberration_spelling_closed_form_points"] += 1
+        if not e2 <= TOL_ANALYTIC:
+            t.fail(dict(cls, judge="closed_form"), case, f"{what}: parallax (no sign flipping) differs from the sum of images translated by grad chi/2pi for {eff} by {e2:.3e} of max (tol {TOL_ANALYTIC}) at {case}")
+
+
+def aber_combo(t, base, kv, up, pair, ctor, opt, over):
+    """One (constructor spelling, optimized-state route, override spelling) combination for one coefficient."""
+    env = base.env
+    alias, canon, sign = pair
+    v_init, v_opt, v_over = ABER_VALUES[canon]
+    b = 2 if opt != "none" else None
+    case = dict(env.point(kv, up, "none"), kind="aber_spelling", coef=canon, alias=alias, ctor=ctor, opt=opt, over=over)
+    del case["aber"]
+    cdict = dict(context_for(pair))
+    if ctor != "none":
+        cdict.update(spelled(pair, v_init, ctor))
+    dp = build(env.x, env.maskname, cdict, env.rot, env.seed)
+    kw = _recon_kwargs(kv, up, b)
+    try:
+        if opt != "none":
+            try:
+                _search(dp, opt, spelled(pair, v_opt, opt), kw)
+            except Exception as ex:
+                t.extra["aberration_search_route_rejected__" + opt] += 1
+                t.case(key=["aber_search_rejected", case], nontrivial=False)
+                t.sample({"rejected_search_route": opt, "exception": f"{type(ex).__name__}: {ex}"[:160]}, cap=1)
+                return
+        okw = {}
+        if over != "none":
+            okw["override_aberration_coefs"] = spelled(pair, 0.0 if over.endswith("zero") else v_over, over)
+        got = recon(dp, kv, up, "none", None, b, **okw)
+    except ReconError as ex:
+        t.fail({"relation": "reconstruct_raised", "exception": type(ex.__cause__).__name__, **kclass(kv)}, case, f"{ex} at {case}")
+        return
+    eff = (0.0 if over.endswith("zero") else v_over) if over != "none" else v_opt if opt != "none" else v_init if ctor != "none" else None
+    cls = {"relation": "aberration_spelling_source_precedence", "constructor": ctor, "optimized": opt.split("_")[-1], "override": over}
+    _judge_aber(t, base, kv, up, b, pair, eff, got, cls, case, f"{canon}/{alias}: constructor={ctor}, optimized={opt}, override={over}")
+    t.extra["aberration_spelling_combinations"] += 1
+
+
+def aber_one_dict(t, base, kv, up, pair, where, how):
+    """Both spellings of one coefficient in ONE dictionary: equal values == canonical alone; conflicting values: the
+    entry listed last wins (the order the current tree defines: entries are processed in dictionary order)."""
+    env = base.env
+    alias, canon, sign = pair
+    v1, v2 = ABER_VALUES[canon][0], ABER_VALUES[canon][2]
+    va = v1 if how.startswith("equal") else v2
+    ent_c, ent_a = (canon, float(v1)), (alias, sign * float(va))
+    both = dict([ent_c, ent_a] if how.endswith("canonical_first") else [ent_a, ent_c])
+    eff = v1 if how.startswith("equal") else (va if how.endswith("canonical_first") else v1)
+    case = dict(env.point(kv, up, "none"), kind="aber_one_dict", coef=canon, alias=alias, where=where, how=how)
+    del case["aber"]
+    cdict = dict(context_for(pair))
+    try:
+        if where == "constructor":
+            cdict.update(both)
+            got = recon(build(env.x, env.maskname, cdict, env.rot, env.seed), kv, up, "none", None, None)
+        else:
+            cdict[canon] = ABER_VALUES[canon][1]
+            got = recon(build(env.x, env.maskname, cdict, env.rot, env.seed), kv, up, "none", None, None, override_aberration_coefs=both)
+    except ReconError as ex:
+        t.fail({"relation": "reconstruct_raised", "exception": type(ex.__cause__).__name__, **kclass(kv)}, case, f"{ex} at {case}")
+        return
+    rel = "aberration_both_spellings_equal_values" if how.startswith("equal") else "aberration_conflicting_spellings_last_listed_wins"
+    _judge_aber(t, base, kv, up, None, pair, eff, got, {"relation": rel, "where": where, "order": how.split("_", 1)[1]}, case, f"{canon} and {alias} in one {where} dictionary {both}")
+    t.extra["aberration_one_dict_combinations"] += 1
+
+
+def w_aber_spell(item, seed=0, opts=tuple(OPT_KINDS)):
+    shape, maskname, rot, kvi, up, pi = item
+    t = Tally()
+    base = AberBase(shape, maskname, rot, seed)
+    kv = KVARIANTS[kvi]
+    pair = aber_pairs()[0][pi]
+    for ctor in CTOR_KINDS:
+        for opt in opts:
+            for over in OVER_KINDS:
+                aber_combo(t, base, kv, up, pair, ctor, opt, over)
+    for where in ("constructor", "override"):
+        for how in ONE_DICT_KINDS:
+            aber_one_dict(t, base, kv, up, pair, where, how)
+    t.extra["aberration_spelling_items"] += 1
+    return t
+
+
 # ----------------------------------------------------------------------------- driver
 def run(ctx):
     q = ctx.quick
@@ -627,6 +1061,9 @@ def run(ctx):
         "oracle (4) is applied for zero aberrations, defocus and defocus+astigmatism only (as the property states), unfiltered; for upsampling > 1 the virtual image is the zero-interleaved image on the finer grid",
         "two-pass kernels (obf, mf) are exempt from recombination and must violate it (sensitivity control)",
         "oracle (6) (same filter envelope for every kernel) is not part of the literal statement; it makes 'filter' a hyper-parameter with one meaning",
+        "mask spellings hold 0/1 (False/True) values only; a spelling the library rejects by raising is counted per spelling, never a failure",
+        "the optimized hyper-parameter state is reached only through the public searches (grid_search_hyperparameters with one grid point or a fixed value, optimize_hyperparameters with low == high, one trial), which are deterministic for a single candidate",
+        "'defocus' = -C10 (documented sign); all other aliases carry the value of their canonical symbol; conflicting spellings in one dictionary: the entry listed last wins (behaviour of the current tree, own failure class)",
     )
 
     def once():
@@ -672,7 +1109,38 @@ def run(ctx):
     ctx.coverage["bounds"]["delta_basis"] = {"scan_shape": list(SHAPES[0]), "masks": b_masks, "aberrations": b_abers, "filters": list(b_filters), "upsampling": UPS, "configs": len(b_items) * len(b_filters)}
     ctx.pmap(w_basis, b_items, chunk=1, label="delta basis", seed=ctx.seed, filters=b_filters)
 
+    # (7) spellings of mask-like / index-like arguments
+    pairs, pair_src, uncovered = aber_pairs()
+    s_shapes = [SHAPES[1]] if q else SHAPES
+    s_abers = ["none", "defocus+astig"] if q else list(ABERS)
+    s_rots = [0.3] if q else ROTS
+    s_ups = [1, 2] if q else UPS
+    s_items = list(itertools.product(s_shapes, masks, s_abers, s_rots, range(len(KVARIANTS)), s_ups))
+    s_items.sort(key=lambda it: (len(det_mask(it[1])[1]), it[5], list(ABERS).index(it[2]), it[3], it[0][0] * it[0][1], it[4]))
+    ctx.coverage["alphabet"]["mask_spellings"] = ["t_bool (canonical)"] + MASK_SPELLINGS
+    ctx.coverage["alphabet"]["mask_spelling_targets"] = {k: (f"complement of {v}" if v else "as named") for k, v in SPELL_TARGETS.items()}
+    ctx.coverage["alphabet"]["index_spellings"] = INDEX_SPELLINGS
+    ctx.coverage["alphabet"]["constructor_mask_spellings"] = CTOR_MASK_SPELLINGS
+    ctx.coverage["bounds"]["mask_spelling_items"] = len(s_items)
+    ctx.pmap(w_mask_spell, s_items, chunk=1, label="mask / index spellings", seed=ctx.seed)
+
+    # (8) aberration spelling x source precedence
+    a_shapes = [SHAPES[1]] if q else SHAPES[:2]
+    a_masks = ["disc5"] if q else masks
+    a_rots = [0.3] if q else ROTS
+    a_ups = [1] if q else [1, 2]
+    a_opts = tuple(o for o in OPT_KINDS if not (q and o.startswith("optuna")))
+    a_items = list(itertools.product(a_shapes, a_masks, a_rots, range(len(KVARIANTS)), a_ups, range(len(pairs))))
+    ctx.coverage["alphabet"]["aberration_alias_pairs"] = {"source": pair_src, "pairs": [[a, c, sgn] for a, c, sgn in pairs], "aliases_without_values_in_this_check": uncovered}
+    ctx.coverage["alphabet"]["aberration_sources"] = {"constructor": CTOR_KINDS, "optimized": list(a_opts), "override": OVER_KINDS, "one_dictionary": ONE_DICT_KINDS, "values_ctor_opt_override": ABER_VALUES}
+    ctx.coverage["bounds"]["aberration_spelling_items"] = len(a_items)
+    ctx.pmap(w_aber_spell, a_items, chunk=1, label="aberration spellings x sources", seed=ctx.seed, opts=a_opts)
+
     ex = ctx.tally.extra
+    ctx.coverage["mask_spellings_rejected"] = {k.split("__", 1)[1]: int(v) for k, v in sorted(ex.items()) if k.startswith("mask_spelling_rejected__")}
+    ctx.coverage["index_spellings_rejected"] = {k.split("__", 1)[1]: int(v) for k, v in sorted(ex.items()) if k.startswith("index_spelling_rejected__")}
+    if not ctx.tally.nfails and (not any(k.startswith("mask_spelling_accepted__") for k in ex) or ex.get("aberration_spelling_combinations", 0) < 100 or ex.get("aberration_spelling_closed_form_points", 0) < 10):
+        raise Broken("the spelling families were not enumerated (no accepted mask spelling / too few aberration combinations)")
     if ex.get("weight_seam_missing"):
         ctx.seam_missing.append("complex_probe.evaluate_probe/spatial_frequencies/polar_coordinates (aperture weight): own closed-form soft aperture used instead")
     # sensitivity control: the two-pass kernels must keep violating the recombination relation
@@ -695,9 +1163,29 @@ def run(ctx):
 def replay(ctx, case):
     t = Tally()
     kv = (case["kernel"], case["flip"])
-    env = Env(tuple(case["shape"]), case["mask"], case["aber"], case["rot"], ctx.seed)
     kind = case.get("kind", "point")
-    if kind == "basis":
+    if kind in ("aber_spelling", "aber_one_dict"):
+        base = AberBase(tuple(case["shape"]), case["mask"], case["rot"], ctx.seed)
+        pair = next(p for p in aber_pairs()[0] if p[1] == case["coef"] and p[0] == case["alias"])
+        if kind == "aber_spelling":
+            aber_combo(t, base, kv, case["up"], pair, case["ctor"], case["opt"], case["over"])
+        else:
+            aber_one_dict(t, base, kv, case["up"], pair, case["where"], case["how"])
+        print("  worst observed deviations at this point:", {k: f"{v:.3e}" for k, v in sorted(t.maxima.items())})
+        for f in t.fails:
+            ctx.fail(f["cls"], f["case"], f["msg"])
+        return
+    env = Env(tuple(case["shape"]), case["mask"], case["aber"], case["rot"], ctx.seed)
+    if kind == "mask_spelling":
+        try:
+            spelling_point(t, env, kv, case["up"], case["sub"], case["spelling"], case["batch"])
+        except ReconError as ex:
+            t.fail({"relation": "reconstruct_raised", "exception": type(ex.__cause__).__name__, **kclass(kv)}, case, str(ex))
+    elif kind == "index_spelling":
+        index_spelling_point(t, env, kv, case["up"], case["argument"], case["spelling"])
+    elif kind == "ctor_mask_spelling":
+        ctor_mask_point(t, env, kv, case["up"], case["constructor_mask"])
+    elif kind == "basis":
         try:
             w = basis_config(t, env, kv, case["up"], case["filter"])
             print(f"  delta-basis linearity worst relative error {w:.3e} (tol {TOL_BASIS})")
